@@ -87,11 +87,11 @@ def judge(case, ctx):
 
 def draw(rng, i):
     if i % 4 == 3:
-        n = rng.randint(1, 9)
+        n = rng.randint(1, 9) if rng.random() < 0.94 else 0       # an empty item list with an invalid argument is still an invalid request
         vals = [rng.randint(0, rng.choice([5, 30, 300])) for _ in range(n)]
-        which = rng.choice(["numbins", "negative_item", "time_limit", "partition_difference"])
+        which = rng.choice(["numbins", "negative_item", "time_limit", "partition_difference"] if n else ["numbins", "time_limit", "partition_difference"])
         case = {"kind": "cbldm_invalid", "alg": "cbldm", "k": 2, "values": vals, "kwargs": {}, "invalid": which,
-                "pres": rng.choice(["list", "dict_str", "names_int", "array"]), "pres_seed": rng.randrange(1 << 30), "ot": rng.choice(OTS)}
+                "pres": rng.choice(["list", "dict_str", "names_int", "array", "dict_sub"]), "pres_seed": rng.randrange(1 << 30), "ot": rng.choice(OTS)}
         if rng.random() < 0.5:
             case["kwargs"]["time_limit"] = rng.choice([0.5, 1, 10])
         if rng.random() < 0.5:
